@@ -471,5 +471,6 @@ func c19(p *model.Prog, r *report.Result) {
 	c19r9(p, r)
 	c19r10(p, r)
 	w5AscCopy(p, r, "C19.R11")
+	w7AscHexLength(p, r, "C19.R13")
 	w6CtxDefUse(p, r, "C19.R12", 1, p.Func("pkg/hevc", "ParseSps"), p.Func("pkg/hevc", "ParseVps"), p.TryFunc("pkg/hevc", "ParsePps"), p.TryFunc("pkg/avc", "ParseSps"))
 }
